@@ -33,6 +33,8 @@ pub struct Ctx {
     /// workload scale in percent (sanitizer flavours run reduced workloads)
     pub scale: u64,
     pub run_dir: String,
+    /// calibration aid: overrides the depth of every exhaustive exploration
+    pub dfs_depth: Option<usize>,
 }
 
 impl Ctx {
@@ -126,6 +128,7 @@ fn main() {
         start: Instant::now(),
         scale,
         run_dir,
+        dfs_depth: arg(&args, "--dfs-depth").and_then(|s| s.parse().ok()),
     };
 
     if let Some(path) = arg(&args, "--replay") {
